@@ -953,6 +953,12 @@ mutant('D2-deleted-account-never-publishes-basic-none', ['C08', 'C01'], [
 mutant('R6-every-storage-writer-registered-as-blocker', ['C05'], [
     ('src/incarnation_db.rs', "            slot_version = ReadVersion::MvMemory(TxVersion::new(txid, entry.incarnation));", "            self.blocking_txs.insert(txid);\n            slot_version = ReadVersion::MvMemory(TxVersion::new(txid, entry.incarnation));"),
 ], ['|R6|'])
+mutant('LC3-predicate-probes-with-swapped-arguments', ['C17', 'C05'], [
+    (S, "                        self.lock_finality_candidate(finality_idx, lower_ts).is_none()", "                        self.lock_finality_candidate(lower_ts, finality_idx).is_none()"),
+], ['|LC3|'])
+mutant('U1-cursor-abstraction-swaps-current-and-new', ['C15'], [
+    ('src/scheduler/cursor.rs', "        AtomicUsize::compare_exchange_weak(self, current, new, success, failure)", "        AtomicUsize::compare_exchange_weak(self, new, current, success, failure)"),
+], ['|U1|'])
 mutant('LC5-validate-stale-test-inverted', ['C05'], [(S, """        if tx_state.incarnation != incarnation {
             self.abort(AbortReason::ParallelError {
                 txid,
